@@ -60,6 +60,9 @@ _OPS = [
     ('stack([self,self],last)', lambda f: True, lambda P, f: f.stack([f, f], last_dim(f))),
     ('subset(first var)', lambda f: len(f.variables) >= 1, lambda P, f: f.subsetVariables([list(f.variables)[0]])),
     ('subset(exclude last var)', lambda f: len(f.variables) >= 2, lambda P, f: f.subsetVariables([list(f.variables)[-1]], exclude=True)),
+    # the in-place forms, on a copy (the catalogue operations must leave their input alone)
+    ('copy + subset(last var, inplace)', lambda f: len(f.variables) >= 2, lambda P, f: f.copy().subsetVariables([list(f.variables)[-1]], inplace=True)),
+    ('copy + subset(exclude first var, inplace)', lambda f: len(f.variables) >= 3, lambda P, f: f.copy().subsetVariables([list(f.variables)[0]], exclude=True, inplace=True)),
     ('renameVariable(last->NEWV)', lambda f: len(f.variables) >= 1 and 'NEWV' not in f.variables,
      lambda P, f: f.renameVariable(list(f.variables)[-1], 'NEWV')),
     ('renameVariable(last->its own name)', lambda f: len(f.variables) >= 1,
